@@ -544,6 +544,9 @@ def no_stale(ctx):
                        'the Jones matrix refers to an earlier call', min_methods=3)
 
 
+ZERO_ = Rat.const(0)
+
+
 def pol_frames(ctx):
     """PolarizedRays.update / _get_3d_electric_field / get_output_field proved
     with the vector evaluator: the s-p-k frames before and after a surface
@@ -655,12 +658,39 @@ def pol_frames(ctx):
                                      construct=f'update: {tag}'))
             else:
                 res.ok(f'update, {tag}')
+            if scen == 'parallel' and not coated and isinstance(o_in, Mx):
+                # an undeviated ray has no plane of incidence: the fallback s
+                # must be the 'x' axis of the frame in which the input states
+                # are defined, s_launch = (k x x) x k (Ex multiplies it in
+                # _get_3d_electric_field), else every Jones element placed on
+                # such a surface acts turned by 90 degrees
+                xh = V((ONE, ZERO_, ZERO_))
+                s_l = cross(cross(k0, xh), k0)
+                s_u = V(o_in[0])
+                par = veq(cross(s_u, s_l), V((ZERO_, ZERO_, ZERO_)), sym)
+                if par:
+                    res.ok('update, parallel directions: s is the x axis of '
+                           'the launch frame ((k x x) x k)')
+                else:
+                    res.fail(ctx.finding(
+                        'POL-FRAMES', up, up.node,
+                        'for an undeviated ray the s axis falls back to a '
+                        'direction that is not the x axis of the launch '
+                        'frame ((k x x) x k): a Jones element on a plane '
+                        'surface acts turned by 90 degrees - JonesPolarizerH '
+                        'transmits 0 of H light and all of V, a quarter-wave '
+                        'plate has the opposite retardance',
+                        construct='update: fallback frame differs from the '
+                                  'launch frame'))
     # the parallel case is recognised with a tolerance: the cross product of
     # two directions that differ by rounding only is noise, and normalising
     # noise gives an s that is not perpendicular to the ray
     from ..match import find, find_seq
     tol = find_seq(up, ['$m = np.linalg.norm($s, axis=1)', '$p = $m < $eps',
                         'if np.any($p):\n    $s[$p] = $v\n    $m = $w']) or \
+        find_seq(up, ['$m = np.linalg.norm($s, axis=1)', '$p = $m < $eps',
+                      'if np.any($p):\n    $x = $xv\n    $s[$p] = $v\n'
+                      '    $m = $w']) or \
         find_seq(up, ['$m = np.linalg.norm($s, axis=1)',
                       'if np.any($m < $eps):\n    $s[$m < $eps] = $v\n'
                       '    $m = $w'])
@@ -1227,4 +1257,50 @@ def pol_entries(ctx):
     return res
 
 
-RULES = [pol_entries, pair_mean, pol_update_once, pol_local_frame, coating_media, no_stale, pol_frames, fresnel, rotation_law, retarder, projectors, aoi]
+def fresnel_power(ctx):
+    """'Fresnel amplitude coefficients conserve energy (R + T = 1 separately
+    for s and p)': the ray intensity is the power a ray carries.  |t|^2 is a
+    ratio of irradiances; the transmitted power is
+    T = n2 cos(theta_t) / (n1 cos(theta_i)) |t|^2.  The polarization matrix
+    carries t (JonesFresnel), so somewhere on the transmit path the scalar
+    intensity has to take the factor n2 cos_t / (n1 cos_i)."""
+    P = ctx.P
+    res = Result('FRESNEL-POWER', 'the transmitted intensity of an uncoated '
+                 'interface is T = n2 cos_t / (n1 cos_i) |t|^2 (so that '
+                 'R + T = 1 and a passive lens never transmits more than 1)')
+    jf = P.func('JonesFresnel.calculate_matrix')
+    res.saw(jf)
+    cands = []
+    for q in ('FresnelCoating.transmit', 'BaseCoatingPolarized.transmit',
+              'PolarizedRays.update', 'PolarizedRays.update_intensity',
+              'BaseCoatingPolarized.interact'):
+        if P.has(q):
+            f = P.func(q)
+            res.saw(f)
+            cands.append(f)
+    def has_factor(f):
+        src = unparse(f.node, 1000000)
+        return ('material_post.n' in src or 'n2' in src) and \
+            ('material_pre.n' in src or 'n1' in src) and 'cos' in src and \
+            any(isinstance(st, (ast.Assign, ast.AugAssign)) and
+                unparse(st.target if isinstance(st, ast.AugAssign)
+                        else st.targets[0]).endswith('.i')
+                for st in ast.walk(f.node))
+    if any(has_factor(f) for f in cands):
+        res.ok('the power factor n2 cos_t / (n1 cos_i) is applied on the '
+               'transmit path')
+    else:
+        tr = P.func('BaseCoatingPolarized.transmit')
+        res.fail(ctx.finding(
+            'FRESNEL-POWER', tr, tr.node,
+            'the polarized trace reports |t|^2 as transmitted intensity: '
+            'nothing on the transmit path multiplies by n2 cos(theta_t) / '
+            '(n1 cos(theta_i)).  A single air-glass interface (n = 1.5) with '
+            'the detector in the glass reads 0.64 instead of 0.96 '
+            '(R + T = 0.68); a bare biconvex singlet at a 10 deg field '
+            'transmits up to 1.038 (> 1) where the vector reference gives '
+            '0.90 .. 0.94', construct='transmitted power factor missing'))
+    return res
+
+
+RULES = [fresnel_power, pol_entries, pair_mean, pol_update_once, pol_local_frame, coating_media, no_stale, pol_frames, fresnel, rotation_law, retarder, projectors, aoi]
